@@ -17,6 +17,8 @@ VERUS_UNITS = {
 # overflow assertions, which C01/C06/C09 rely on, stay on (canary in every group)
 KANI_GROUPS = {
     'f64-ast': dict(mods=[('src/eval_f64/mod.rs', 'kani/f64_ast.rs', 'verif_ast')], flags=['--no-overflow-checks', '-Z', 'stubbing'], timeout=400, jobs=14),
+    'i64-ast': dict(mods=[('src/eval_i64/mod.rs', 'kani/i64_ast.rs', 'verif_ast')], flags=['--no-overflow-checks', '-Z', 'stubbing'], timeout=600, jobs=12),
+    'tables': dict(mods=[('src/utils/mod.rs', 'kani/tables.rs', 'verif_tables')], flags=[], timeout=300, jobs=2),
     'number-ast': dict(mods=[('src/eval_number/mod.rs', 'kani/number_ast.rs', 'verif_ast')], flags=['--no-overflow-checks', '-Z', 'stubbing'], timeout=400, jobs=14),
     'number-l4': dict(mods=[('src/eval_number/mod.rs', 'kani/number_l4.rs', 'verif_l4')], flags=['--no-overflow-checks'], timeout=600, jobs=4),
 }
@@ -24,12 +26,18 @@ KANI_GROUPS = {
 PARSERS = ['i64-parser', 'f64-parser', 'number-parser', 'decimal-parser', 'complex-parser']
 
 PARSER_ASSUME = [
-    'A-tokenizer-shape: the token sequence handed to the parser ends with Eof, has no Eof before that and no two adjacent number literals (obligation of the tokenizer units)',
+    'A-tokenizer-shape: the token sequence handed to the parser ends with Eof and has no Eof before that (obligation of the tokenizer units)',
     'T2: derived Clone/PartialEq of Token, NativeFunction, Node are structural; derived PartialOrd of OperatorCategory follows declaration order (the latter also proved by Kani on the real derive)',
     'T6 (fn-pointer parameter specialised per call site), T7 (format! dropped), T5 extraction rewrites',
     'arm splitting: match arms are verified in separate runs, every other arm pruned with assume(false); the runs together cover all arms',
 ]
 
+KANI_ASSUME = [
+    'A-ieee: rustc/LLVM and CBMC agree on IEEE-754 binary64 for + - * / comparisons, rounding functions and int<->float casts',
+    'A-libm: sqrt, powf, powi, sin .. atanh, atan2, exp, exp2, ln, log, log2, log10 are replaced by recording stubs that return an arbitrary double: what is proved is which primitive is applied to which operands, not what it computes',
+    'induction frame: an arm of eval uses its children only through eval(child) (true of the source; not machine-checked)',
+    'harnesses run on an overlay copy of the unmodified crate; --no-overflow-checks only silences CBMC float NaN/inf checks (rustc overflow assertions stay on: canary in every group)',
+]
 AST_ASSUME = [
     'A-std-int: assumed contracts of i64::checked_neg/checked_abs/checked_pow/unsigned_abs/signum/wrapping_rem (vstd has none); vstd contracts of checked_add/sub/mul/div, min, max, RangeInclusive::contains',
     'A-libm: f64::sqrt/powf/ln/log/exp are uninterpreted (any result); int<->float casts as specified by vstd',
@@ -41,29 +49,36 @@ AST_ASSUME = [
 ALL_V = ['i64-ast'] + PARSERS
 
 PLAN = {
-    'C01': dict(verus=ALL_V, level='proof', assumptions=AST_ASSUME + PARSER_ASSUME + ['A-stack, A-alloc: stack exhaustion and allocation failure are not modelled'],
-                unclaimed=['tokenizers (L1)', 'eval of f64 / number / decimal / complex (L3)', 'eval_* glue and Number::from (L4)']),
-    'C02': dict(verus=ALL_V, level='proof', assumptions=AST_ASSUME + PARSER_ASSUME,
-                unclaimed=['tokenizers (L1)', 'value-dependent loops of eval_f64 / eval_number / eval_decimal (factorial, Lambert W, ilog)',
+    'C01': dict(verus=ALL_V, kani=['i64-ast', 'f64-ast', 'number-ast', 'number-l4'], level='proof', assumptions=AST_ASSUME + PARSER_ASSUME + ['A-stack, A-alloc: stack exhaustion and allocation failure are not modelled'],
+                unclaimed=['tokenizers (L1)', 'eval of decimal / complex (L3)', 'aggregates of eval_f64 / eval_number with two or more arguments (beyond CBMC)', 'eval_* glue (L4)']),
+    'C02': dict(verus=ALL_V, kani=['f64-ast', 'number-ast'], level='proof', assumptions=AST_ASSUME + PARSER_ASSUME,
+                unclaimed=['tokenizers (L1)', 'value-dependent loops of eval_decimal (factorial, Lambert W, ilog)',
                            'the global bound 4096 + 256*len is derived on paper from the per-function measures, not machine-checked']),
-    'C10': dict(verus=ALL_V, level='proof', assumptions=AST_ASSUME + PARSER_ASSUME,
+    'C10': dict(verus=ALL_V, kani=['i64-ast', 'f64-ast', 'number-ast'], level='proof', assumptions=AST_ASSUME + PARSER_ASSUME,
                 unclaimed=['function names / aliases (tokenizer keyword arms)', 'numerical accuracy of libm-backed functions, gamma, Lambert W',
-                           'eval of f64 / number / decimal / complex']),
-    'C11': dict(verus=ALL_V, level='proof', assumptions=AST_ASSUME + PARSER_ASSUME,
+                           'eval of decimal / complex']),
+    'C11': dict(verus=ALL_V, kani=['f64-ast', 'number-ast'], level='proof', assumptions=AST_ASSUME + PARSER_ASSUME,
                 unclaimed=['aggregates of eval_f64 / eval_number / eval_decimal (L3)']),
     'C13': dict(verus=PARSERS, level='proof', assumptions=PARSER_ASSUME,
                 unclaimed=['whitespace removal (eval_* glue)', 'alias spellings (tokenizer keyword arms)']),
-    'C14': dict(verus=ALL_V, level='proof', assumptions=AST_ASSUME + PARSER_ASSUME,
-                unclaimed=['eval_* glue passing Some(placeholder)', 'leaf evaluation in eval_f64 / number / decimal / complex']),
+    'C14': dict(verus=ALL_V, kani=['f64-ast', 'number-ast'], level='proof', assumptions=AST_ASSUME + PARSER_ASSUME,
+                unclaimed=['eval_* glue passing Some(placeholder)', 'leaf evaluation in eval_decimal / eval_complex']),
+    'C05': dict(verus=['f64-parser'], kani=['f64-ast'], level='proof',
+                assumptions=KANI_ASSUME + ['constants pi and e: the parser inserts std::f64::consts::PI / E (T8: their bit patterns are not re-proved)'],
+                unclaimed=['value of / and % on the full operand domain (bounded stand-ins only; full-domain division is tried in the thorough tier)',
+                           'numerical behaviour of the platform pow / sqrt (A-libm)']),
+    'C09': dict(kani=['number-ast', 'number-l4'], level='proof', assumptions=KANI_ASSUME,
+                unclaimed=['value of Integer ^ Integer (Kani 0.68 mis-models this arm: its counterexamples do not replay natively)',
+                           'value of the Float quotient / remainder beyond the bounded domain', 'integer vs float literal distinction (tokenizer)']),
     'C18': dict(kani=['number-l4'], level='proof',
                 assumptions=['A-ieee: rustc/LLVM and CBMC agree on IEEE-754 binary64 comparison, floor and float->int casts',
                              'loop-free harness over kani::any::<f64>() / kani::any::<i64>(): every bit pattern, no bound'],
                 unclaimed=[]),
-    'C20': dict(verus=ALL_V, level='proof', assumptions=AST_ASSUME + PARSER_ASSUME,
+    'C20': dict(verus=ALL_V, kani=['f64-ast', 'number-ast'], level='proof', assumptions=AST_ASSUME + PARSER_ASSUME,
                 unclaimed=['eval of f64 / number / decimal / complex']),
 
     'C06': dict(
-        verus=['i64-ast'], kani=[],
+        verus=['i64-ast'], kani=['i64-ast'],
         level='proof',
         assumptions=[
             'A-std-int: assumed contracts of i64::checked_neg/checked_abs/checked_pow/unsigned_abs/signum/wrapping_rem (vstd has none); vstd contracts of checked_add/sub/mul/div',
@@ -73,7 +88,7 @@ PLAN = {
         unclaimed=[],
     ),
     'C03': dict(verus=PARSERS, level='proof', assumptions=PARSER_ASSUME, unclaimed=[]),
-    'C04': dict(verus=PARSERS, level='proof', assumptions=PARSER_ASSUME, unclaimed=[]),
+    'C04': dict(verus=PARSERS, kani=['tables'], level='proof', assumptions=PARSER_ASSUME, unclaimed=[]),
     'C12': dict(verus=PARSERS, level='proof', assumptions=PARSER_ASSUME, unclaimed=[]),
 }
 
@@ -103,13 +118,17 @@ LEVEL_TEXT = {
 }
 LEVEL_TEXT['C18'] = ('Kani/CBMC proves two loop-free harnesses over the full input domain (all 2^64 doubles, all i64) that call the real, '
                      'unmodified Number::from and assert the exact characterisation of the property; a loop-free full-domain harness is a complete proof.')
+LEVEL_TEXT['C05'] = ('Kani/CBMC proves one loop-free harness per Node constructor of eval_f64 over fully symbolic double leaves (every bit pattern): '
+                     '+ - * unary minus abs floor ceil trunc round are bit-exact IEEE operations and never Err; ^ and sqrt apply powf / sqrt to the operands in order. '
+                     '/ and % are proved total (never Err, never a panic) on the full domain; their value only on a bounded domain (labelled bounded, not counted).')
+LEVEL_TEXT['C09'] = ('Kani/CBMC proves one harness per Node constructor and operand-variant combination of eval_number over fully symbolic Integer/Float leaves: '
+                     'Integer results are exact when they fit and otherwise the Float of the operands, Float operands give the IEEE value, rounding functions return the rounded value, '
+                     'plus Number::from over all doubles.')
 DESIGN_REF = {}
 TECHNIQUE = {'C18': 'contract-style full-domain Kani harness on the unmodified function (bit-precise, no unwinding bound)'}
 NOT_APPLICABLE = {
-    'C05': 'not yet covered: eval_f64::ast cannot be taken by Verus (no float theory, unary minus on floats rejected); the per-constructor Kani obligations of DESIGN 6.3 are not built yet',
     'C07': 'not yet covered: eval_decimal::ast against the rust_decimal contract header is not built yet',
     'C08': 'not yet covered: eval_complex::ast against the num_complex contract header is not built yet',
-    'C09': 'not yet covered: eval_number::ast per-constructor Kani obligations are not built yet',
     'C15': 'not yet covered: relational Kani obligations between evaluators are not built yet',
     'C16': 'contracts speak about one call: neither installed verifier can quantify over unbounded call histories or thread interleavings (Kani has no threads; Verus would need permission types around code that has no shared state to annotate)',
     'C17': 'not yet covered: per-feature-subset re-verification is not built yet',
